@@ -4,7 +4,7 @@ from eonmc import fam_gillespie as fg
 LEVEL = "model_checking"
 RULE = ("every graph/weight mode/rate pair/non-empty infected set is one spec with an event horizon K; for each spec EVERY "
         "outcome of every random draw is enumerated on the real code; non-trivial = execution with at least one event")
-BOUNDS = {"quick": "graphs as C01; every non-empty infected set as start state; horizon 5 events (4 on 4 nodes); fast_SIS: 2 exponential magnitudes, draw budget 9 (7 on 4 nodes)",
+BOUNDS = {"quick": "graphs as C01; every non-empty infected set as start state; horizon 5 events (4 on 4 nodes); fast_SIS: 2 exponential magnitudes, draw budget 9 (7 on 4 nodes); self-loops; rates of order 1e-9; rates/times as ints and numpy scalars",
           "thorough": "all graphs on <=4 nodes + bull,P5,S5; horizon 6/5/4 events"}
 ASSUMPTIONS = ["event horizon K from every start state instead of an unbounded run",
                "small-scope hypothesis on graph size"]
